@@ -68,6 +68,19 @@ CHECKS = {
         'Trusted: Coq kernel + vm_compute; numpy slicing / fancy assignment / masks and deque.insert modelled functionally; dtype values rendered '
         'as integers (exact). Error class is compared only as error-vs-value (the property does not fix it). NZ hypothesis = assignments of non-zero values, as the property states.',
         '§4 C17'),
+    'C05': (
+        'Coq proof (extract_terms = map over the retained nodes; edge list = is_a edges between retained nodes; ignored nodes; minimal/full agreement; order irrelevance) over a document-level model + per-run vm_compute correspondence on rendered JSON files',
+        'Machine-checked theorems for every parsed document: the current terms of the loaded ontology are exactly the non-deprecated CLASS nodes whose id is '
+        'an OBO PURL with a requested prefix, each built from its node alone (id, name, alternate ids, obsolescence; for the full loader definition, joined '
+        'comments, synonyms with category/type, xrefs); the extracted hierarchy contains exactly the is_a edges whose two endpoints are retained nodes '
+        '(deprecated or not) - other predicates, dangling and foreign edges are ignored; non-retained nodes do not influence anything; the minimal and the '
+        'full loader agree on id, name, alternate ids, obsolescence; permuting nodes and edges gives the same current terms and the same edge set (hence, '
+        'by C02, the same graph). Version: examples for both encodings. Correspondence: generated documents (all node types, deprecated absent/true/false, '
+        'every optional meta part, 12 synonymType spellings, odd PURLs, 5 kinds of ignorable edges, 3 version encodings) through both loaders, all '
+        'factories and the shared defaults, also shuffled - the whole flattened ontology is compared.',
+        'Trusted: Coq kernel + vm_compute; json.load; regexes modelled as ASCII string functions (paper argument for the greedy match, validated on odd ids); '
+        'graph = C01/C02 model, container = C06 model. "deprecated": false made terms obsolete: genuine defect fixed in /repo (fix: a5a2d3d).',
+        '§4 C05'),
     'C06': (
         'Coq proof (dict-semantics id map = last term carrying the id; unconditional never-obsolete; lookup spec under disjoint ids; key listing) + per-run vm_compute correspondence with src/hpotk/ontology/_default.py, _api.py',
         'Machine-checked theorems for every term collection and a term type generic in its payload (so for the minimal AND the full ontology): len / terms '
